@@ -23,6 +23,9 @@ import Driver.Util
   `q r d f n`; events `,`-separated: `I<t>` queryQueue called, `A<t>:<hex of the command's stdout>` /
   `A<t>:!` (command failed) the query finishes, `R<t>` refreshState, `P<jobid>:<st>` the job writes files.
   Reply per event, `;`-separated: `<last|->|<ids in flight +-separated | ->|<st>/<since|->,…`.
+* `C12.acq  <max,cur,reserved>  <waiting amounts | .>  <n>`: one `Acquire(n)` (id 0) on that state, reply as an entry of `C12.sem`.
+* `C12.cfgsizes  <maxCores,maxMemGB,maxVmemMB,threadsPerJob,memGBPerJob,extraVmemGB>  <procs left for jobs | ->  <cores,mem,vmem,procs amounts>`:
+  reply `<Sane 1/0>|<localSizes ,-separated>|<localAmounts ,-separated>`.
 * `C12.refresh  <mem|vmem|cores|procs>  <max,cur,reserved>  <waiting amounts ,-separated | .>  <actualFree,rss,vmem,procs,idleCenti,rlimCur,userProcs>`:
   what `refreshResources` does to that semaphore (Martian/SemaphoreRefresh.lean; the vmem semaphore's limit is its max).
   Reply as one entry of `C12.sem`: `cur:reserved:qlen:events` (waiters get the ids 1, 2, …).
@@ -185,6 +188,23 @@ def withIds : Nat → List Int → List Waiter
 
 def handle (op : String) (args : List String) : Option String :=
   match op, args with
+  | "acq", [st, ws, n] => do
+    let st ← ints? st
+    let ws ← (if ws == "." then some [] else ints? ws)
+    let n ← int? n
+    match st with
+    | [m, c, r] => pure (showStep (step ⟨m, c, r, withIds 1 ws⟩ (.acquire 0 n)))
+    | _ => none
+  | "cfgsizes", [cfg, procs, amts] => do
+    let c ← ints? cfg
+    let p ← (if procs == "-" then some none else (int? procs).map some)
+    let a ← ints? amts
+    match c, a with
+    | [a1, a2, a3, a4, a5, a6], [x, y, z, w] =>
+      let cfg : LocalCfg := ⟨a1, a2, a3, a4, a5, a6⟩
+      let show' := fun (l : List Int) => ",".intercalate (l.map toString)
+      pure s!"{b01 (saneB cfg)}|{show' (localSizes cfg p)}|{show' (localAmounts cfg p.isSome (x, y, z, w))}"
+    | _, _ => none
   | "refresh", [kind, st, ws, obs] => do
     let st ← ints? st
     let ws ← (if ws == "." then some [] else ints? ws)
